@@ -17,6 +17,7 @@ import (
 	"testing"
 	"time"
 
+	"google.golang.org/protobuf/encoding/prototext"
 	"google.golang.org/protobuf/reflect/protoreflect"
 	"google.golang.org/protobuf/reflect/protoregistry"
 	"google.golang.org/protobuf/types/descriptorpb"
@@ -432,6 +433,7 @@ func checkBatch(c batchCase) error {
 // is the first unit of its program).
 type batchSpec struct {
 	idx      int
+	witness  bool // fixed witness schema of a finding, not a drawn set
 	opts     schema.Opts
 	adv      bool
 	lvls     []string
@@ -452,9 +454,6 @@ type variant struct {
 // derived from VERIF_SEED (and the shard), so a run is reproducible.
 func planBatches() []*batchSpec {
 	n := 3
-	if pbt.Thorough() {
-		n = 4
-	}
 	var out []*batchSpec
 	for i := 0; i < n; i++ {
 		k := int(pbt.Shard)*n + i
@@ -510,6 +509,11 @@ func planBatches() []*batchSpec {
 		}
 		b.files = best
 		out = append(out, b)
+	}
+	for i, txt := range []string{negZeroSchema, repStrExtSchema} {
+		if f := parseFile(txt); f != nil {
+			out = append(out, &batchSpec{idx: -1 - i, witness: true, lvls: []string{levels[(int(pbt.Seed)+i)%3]}, files: []*descriptorpb.FileDescriptorProto{f}})
+		}
 	}
 	// units: the first unit of each program (one program per build-tag set) keeps its names, the
 	// others get a package / path prefix; which (set, level) comes first rotates with the seed
@@ -576,7 +580,11 @@ func TestBatch(t *testing.T) {
 		return
 	}
 	pbt.S.SetRule("batch", batchRule)
+	minimised := false
 	for _, b := range batches() {
+		if b.witness {
+			continue
+		}
 		for _, v := range b.variants {
 			l := v.level
 			c := batchCase{Raw: v.raw, Level: l, Adv: b.adv, Text: schema.Text(v.files)}
@@ -587,7 +595,11 @@ func TestBatch(t *testing.T) {
 					t.Errorf("harness error: %v", r.err)
 					continue
 				}
-				mc, merr := minimise(c, r.err)
+				mc, merr := c, r.err
+				if !minimised { // reduce the first failing unit only: the others usually fail alike
+					minimised = true
+					mc, merr = minimise(c, r.err)
+				}
 				pbt.ReportViolation(t, "batch", mc, merr)
 				continue
 			}
@@ -637,8 +649,36 @@ func checkRuntime(c rtCase) error {
 		}
 		return fmt.Errorf("no program for the schema set: %v", r.err)
 	}
-	return r.call(c41run.Req{Op: "case", Msg: c.Msg, M: c.M, Wire: c.Wire, Ops: c.Ops, NoLazy: c.NoLazy, Bad8: c.Bad8}, &lastRT)
+	if err := r.call(c41run.Req{Op: "case", Msg: c.Msg, M: c.M, Wire: c.Wire, Ops: c.Ops, NoLazy: c.NoLazy, Bad8: c.Bad8}, &lastRT); err != nil {
+		return err
+	}
+	if lastRT.RepStrExt && !pbt.ExcludeKnown(kfRepStrExt) {
+		return fmt.Errorf("codec verdicts of the generated type and dynamicpb differ on a repeated string extension with invalid UTF-8 (finding %s is not listed as known)", kfRepStrExt)
+	}
+	if lastRT.NegZero && !pbt.ExcludeKnown(kfNegZero) {
+		return fmt.Errorf("the generated getter of an unset float / double field with [default = -0] returns +0 (finding %s is not listed as known)", kfNegZero)
+	}
+	return nil
 }
+
+// kfNegZero: Default_<Msg>_<Field> of a float / double field whose default is -0 is written as
+// float32(-0) / float64(-0), which is +0 in Go.
+const kfNegZero = "KF-gengo-default-negzero"
+
+// kfRepStrExt: the table-driven codec has no UTF-8 validating coder for repeated string extension
+// values; the reflection codec validates them (editions utf8_validation = VERIFY).
+const kfRepStrExt = "KF-extension-repeated-string-utf8-fastpath"
+
+// repStrExtSchema is the fixed witness of kfRepStrExt (linked like negZeroSchema).
+const repStrExtSchema = `name: "rx.proto" package: "rx" syntax: "editions" edition: EDITION_2023
+	message_type: { name: "M" extension_range: { start: 100 end: 200 } }
+	extension: { name: "xs" number: 100 label: LABEL_REPEATED type: TYPE_STRING extendee: ".rx.M" }`
+
+// negZeroSchema is the fixed witness of kfNegZero; it is linked into the first program of every run
+// as one more (tiny) unit.
+const negZeroSchema = `name: "nz.proto" package: "nz" message_type: { name: "W"
+	field: { name: "f" number: 1 label: LABEL_OPTIONAL type: TYPE_FLOAT default_value: "-0" }
+	field: { name: "d" number: 2 label: LABEL_OPTIONAL type: TYPE_DOUBLE default_value: "-0" } }`
 
 type drawable struct {
 	b    *batchSpec
@@ -661,6 +701,9 @@ func drawables() []*drawable {
 func computeDrawables() []*drawable {
 	var out []*drawable
 	for _, b := range batches() {
+		if b.witness {
+			continue
+		}
 		for _, v := range b.variants {
 			r := runnerFor(v.raw, v.level, b.adv)
 			if r.err != nil {
@@ -846,4 +889,12 @@ func TestRuntime(t *testing.T) {
 		t.Fatalf("no program could be built")
 	}
 	pbt.Run(t, p)
+}
+
+func parseFile(txt string) *descriptorpb.FileDescriptorProto {
+	f := &descriptorpb.FileDescriptorProto{}
+	if err := prototext.Unmarshal([]byte(txt), f); err != nil {
+		return nil
+	}
+	return f
 }
